@@ -3083,7 +3083,7 @@ func (m *Msg) signMessage() error {
 	// We render an unsigned version of the mail into a buffer so we can use it for
 	// the S/MIME signature
 	buf := bytes.NewBuffer(nil)
-	mw := &msgWriter{writer: buf, charset: m.charset, encoder: m.encoder}
+	mw := &msgWriter{writer: buf, charset: m.charset, encoder: m.encoder, plainPartHeader: true}
 	mw.writeMsg(m)
 
 	// Since we only want to sign the message body, we need to find the position within
